@@ -195,3 +195,25 @@ def scratch_base() -> str:
     import tempfile
 
     return tempfile.gettempdir()
+
+
+def sut_exception_violation(exc, prop, step):
+    """An exception that escaped from SUT code during an observation the harness expects
+    to work is an observable failure (violation), not a harness error.  Returns a violation
+    dict, or None if no frame of the traceback lies in the repository sources."""
+    import traceback
+
+    tb = traceback.extract_tb(exc.__traceback__)
+    src = os.path.realpath(REPO_SRC)
+    frames = [f for f in tb if os.path.realpath(f.filename).startswith(src)]
+    if not frames:
+        return None
+    last = frames[-1]
+    where = f"{os.path.relpath(os.path.realpath(last.filename), src)}:{last.name}"
+    return {
+        "prop": prop,
+        "oracle": "unexpected-exception",
+        "detail": f"{type(exc).__name__}: {str(exc)[:200]} raised from {where} while the harness observed the system (an observation that must not fail)",
+        "shape": f"{type(exc).__name__}@{where}",
+        "step": step,
+    }
